@@ -280,6 +280,12 @@ func (e *Engine) intrinsic(s *State, f *Frame, call *ssa.Call, fn *ssa.Function,
 	case "hash/crc32.MakeTable":
 		set(PtrV{})
 		return true
+	case "regexp.MustCompile":
+		// an opaque compiled expression: a distinct object per call. Matching is not modelled; a
+		// harness that needs it cuts the match method and tells the expressions apart by identity.
+		pt := fn.Signature.Results().At(0).Type().(*types.Pointer)
+		set(PtrV{Obj: e.alloc(s, zeroValue(pt.Elem()))})
+		return true
 	case "bytes.Equal":
 		a, b := args[0].(SliceV), args[1].(SliceV)
 		if _, ok := e.uniqueValue(s, a.Len); ok {
@@ -316,6 +322,9 @@ func (e *Engine) intrinsic(s *State, f *Frame, call *ssa.Call, fn *ssa.Function,
 			}
 		}
 		set(r)
+		return true
+	case "strings.Clone", "internal/stringslite.Clone", "strconv.cloneString":
+		set(args[0]) // strings are immutable values here; a copy is the same value
 		return true
 	case "path.Join":
 		vs := e.variadic(s, args[0])
@@ -602,7 +611,12 @@ func (e *Engine) fmtTyped(s *State, verb byte, v Value, t types.Type) Value {
 			return mkStr(hexCells(x.Cells))
 		}
 		if verb == 'q' {
-			unsupp("%%q of symbolic string")
+			// opaque rendering (escaping is not modelled): quote, one uninterpreted cell per byte, quote
+			cells := []*Term{BVInt('"', 8)}
+			for _, c := range x.Cells {
+				cells = append(cells, UF("verif.fmtq", BV(8), c))
+			}
+			return mkStr(append(cells, BVInt('"', 8)))
 		}
 		return x
 	case *Term:
